@@ -8,6 +8,16 @@ func cutsAll(n int) []int {
 	return r
 }
 
+var hugeBuf []byte
+
+// hugeMsg is one byte more than a packet can carry; the pages are never touched.
+func hugeMsg() []byte {
+	if hugeBuf == nil {
+		hugeBuf = make([]byte, 256<<20)
+	}
+	return hugeBuf
+}
+
 func init() {
 	register("writers", func() *Scenario {
 		return &Scenario{
@@ -16,7 +26,7 @@ func init() {
 			Actors: []ActorSpec{
 				{Name: "reader", Reader: &ReaderSpec{Backoff: true}},
 				// a denied request first: refusals must leave no trace, not even in the buffer pool
-				{Name: "A", Ops: []Op{{Kind: "pub1", Topic: "", Msg: []byte("denied-no-topic")}, {Kind: "pub2", Topic: "bad\x00topic", Msg: []byte("denied-nul")}, {Kind: "pub0", Topic: "w/a", Msg: []byte("A-0123456789-0123456789-0123456789-end")}}},
+				{Name: "A", Ops: []Op{{Kind: "pub1", Topic: "", Msg: []byte("denied-no-topic")}, {Kind: "pub2", Topic: "bad\x00topic", Msg: []byte("denied-nul")}, {Kind: "pub0", Topic: "w/huge", Msg: hugeMsg()}, {Kind: "pub0", Topic: "w/a", Msg: []byte("A-0123456789-0123456789-0123456789-end")}}},
 				{Name: "B", Ops: []Op{{Kind: "sub", Filters: []string{"w/b"}}}},
 				{Name: "C", Ops: []Op{{Kind: "ping"}, {Kind: "pub0r", Topic: "w/c", Msg: []byte{}}}},
 				{Name: "D", Ops: []Op{{Kind: "pub1", Topic: "w/d", Msg: []byte("D-payload")}}},
